@@ -187,6 +187,12 @@ static void drive(Solver& eigs, vf::Draw& d, vf::Case& c, const Context& cx)
         if (vl.norm() == 0)
             vl[0] = 1;
         v = vf::Narrow<S>::mat(vl);
+        // is the start vector numerically in the null space of A? (||A v0|| at rounding level relative to ||A|| ||v0||)
+        {
+            CVecL vr = vf::widen(v);
+            ld ratio = (R.A * vr).norm() / (cx.normA * vr.norm());
+            c.feat["start_nullspace_ratio"] = (double) ratio;
+        }
         return name;
     };
     // history
@@ -437,17 +443,15 @@ static void run_case(vf::Draw& d, vf::Case& c)
         shift_case(d, c);
 }
 
-// Known-finding signatures (KNOWN_FINDINGS.txt). D6: absolute thresholds in the breakdown handling of
-// Arnoldi/Lanczos: a coupling / residual that is not negligible relative to ||A|| was dropped, or a breakdown
-// was handled on a matrix whose norm is far from 1.
+// Known-finding signatures (KNOWN_FINDINGS.txt).
 static std::string match(const vf::Violation& v, const vf::Case& c)
 {
     if (v.kind == "residual" || v.kind == "orthonormality" || v.kind == "unit_norm")
     {
-        bool dropped = (c.f("forced_zero") + c.f("local_restart") > 0) && c.f("dropped_beta_rel") > 64.0 * (double) EPS;
-        bool badscale = (c.f("forced_zero") + c.f("local_restart") + c.f("expand") > 0) && std::fabs(c.f("scale_exp")) >= 3;
-        if (dropped || badscale)
-            return "abs_threshold_path";
+        // KF-C01-FLOAT: single precision, start vector numerically in the null space of A: A*v0 consists of rounding noise of
+        // magnitude ~1e-21, the square of which underflows in the unscaled norm(), so the first basis vector is not normalised
+        if (std::is_same<Real, float>::value && c.feat.count("start_nullspace_ratio") && c.f("start_nullspace_ratio") < 1e-12)
+            return "float_norm_underflow";
     }
     return "";
 }
